@@ -15,8 +15,19 @@
  * satisfy what the next call needs, e.g. the holder cell is empty); the last line of a
  * complete run is "# done" (printed after gc_delete).
  *
- *   gcdrive <file.hist>
+ *   gcdrive [--sparse <K>] <file.hist>
  *   gcdrive --oomprobe <size>
+ *   gcdrive --triggerprobe
+ *
+ * --sparse K (large heaps): the full dump is printed only for block 0, every K-th block, the last
+ * block, every collect/run and the operation right before a collect/run; the other blocks are
+ *   @ <index> <operation text>
+ *   ret <n> | oom-expected free=<head>
+ *   ~ <free head> <w_index> <wb_top[0]> <wb_top[1]>
+ *
+ * --triggerprobe: the `wb_top < mem_size * 0.8` test of gc_run for heap sizes up to 2^32-1, on a
+ * fake collector whose lists do not exist (a child process per probe: no collection = clean
+ * return, collection = the child dies when gc_sweep_all reads the list).
  *
  * exit: 0 ok, 2 format error in the history, 3 stopped at a failed precondition.
  */
@@ -35,7 +46,7 @@
 #include "object.h"
 
 #define MAX_TOK 200100
-#define MAX_SIZE 100000u
+#define MAX_SIZE (1u << 22)
 
 static gc * G = NULL;
 static int lineno = 0;
@@ -187,11 +198,18 @@ static void dump_state(void)
             dump_cell(i);
 }
 
-static void dump(int idx, const char * text, const char * res)
+static void dump(int idx, const char * text, const char * res, int full)
 {
     printf("@ %d %s\n%s\n", idx, text, res);
-    dump_state();
-    fflush(stdout);
+    if (full)
+    {
+        dump_state();
+        fflush(stdout);
+    }
+    else
+    {
+        printf("~ %u %u %u %u\n", G->free, G->w_index, G->wb_top[0], G->wb_top[1]);
+    }
 }
 
 /* ---------- preconditions on the REAL heap ------------------------------------------ */
@@ -564,7 +582,7 @@ static void run_history(const char * path)
                 format_error("the first line must be 'size <n>'", NULL);
             size = num_u(toks[1]);
             if (size < 2 || size > MAX_SIZE)
-                format_error("heap size outside 2..100000", toks[1]);
+                format_error("heap size outside 2..4194304", toks[1]);
             G = gc_new(size);
             have_size = 1;
             {
@@ -849,7 +867,7 @@ int main(int argc, char ** argv)
         unsigned long size = strtoul(argv[2], &end, 10);
         if (end == NULL || *end != 0 || size < 2 || size > MAX_SIZE)
         {
-            fprintf(stderr, "gcdrive: --oomprobe <size 2..100000>\n");
+            fprintf(stderr, "gcdrive: --oomprobe <size 2..4194304>\n");
             return 2;
         }
         return oomprobe((unsigned int)size);
